@@ -534,7 +534,24 @@ def run_case(case, ctx):
             known = w
     if known is not None:
         return violated(known, sig, stats["matched"] > 0, sorted(cls))
-    return held(sig, stats["matched"] > 0, sorted(cls))
+    res_ = held(sig, stats["matched"] > 0, sorted(cls))
+    moved = "history_network_moved_in_place_and_prepared_again" in cls
+    case_now = case2 if moved else case
+    mt_now = dict(case_now["matchings"][-1] if moved else case_now["matchings"][0])
+    mt_now["mode"] = "single" if mt_now["mode"] == "rematch" else mt_now["mode"]
+
+    def again():
+        # the same Network object (index, prepared distances), matched again after another case (another network) was
+        # built and matched in between
+        idx = len(case_now["matchings"]) - 1 if moved else 0
+        w = _run_matching(case_now, network, mt_now, idx, ctx, set(), {"matched": 0, "unmatched": 0})
+        if w and classify(case_now, w) is None:
+            w["what"] = ("matching on a network that was used before, again after ANOTHER network was built and matched in "
+                         "between: " + str(w.get("what")))
+            return w
+        return None
+    res_["again"] = again
+    return res_
 
 
 # --------------------------------------------------------------------------
